@@ -7,12 +7,18 @@ Correspondence: Lean-encoded reference streams -> generated C++ and Python reade
 import json
 import os
 
+import random
+
 import codeclab
 import modelgen
+import streamcorr
 import vlib
 
 THEOREMS = ["Yardl.C01.value_round_trip", "Yardl.C01.stream_round_trip", "Yardl.C01.protocol_round_trip",
-            "Yardl.C01.varint_round_trip", "Yardl.C01.zigzag_round_trip"]
+            "Yardl.C01.varint_round_trip", "Yardl.C01.zigzag_round_trip",
+            "Yardl.C01.cpp_writer_refines", "Yardl.C01.py_writer_refines",
+            "Yardl.C01.cpp_reader_refines_var64", "Yardl.C01.cpp_reader_refines_var32",
+            "Yardl.C01.cpp_reader_refines_byte", "Yardl.C01.cpp_reader_refines_bytes"]
 
 
 def hexfile(path):
@@ -35,8 +41,13 @@ def run(report, tier, seed):
     with vlib.Scratch("vf-c01-") as sc:
         ybin = vlib.build_yardl(sc)
         drv = vlib.LeanDriver("wiredrv")
+        _streams(report, sc, drv, seed, quick)
         gens = [(i, modelgen.Gen(seed * 100003 + i)) for i in range(n_models)]
         labs = codeclab.prepare_labs(sc, ybin, gens, ndjson=False, sanitize=not quick)
+        dlab = codeclab.Lab(sc, ybin, 1000, modelgen.Gen(seed * 100003 + 1000), pkg=modelgen.directed_package(),
+                            ndjson=False, sanitize=not quick).prepare()
+        dlab.directed = True
+        labs.append(dlab)
         for lab in labs:
             if not lab.ok:
                 report.violation(f"{lab.stage}:model", {"seed": seed, "model_index": lab.idx, "error": lab.err,
@@ -45,8 +56,21 @@ def run(report, tier, seed):
             report.count("models")
             for k, v in lab.gen.cov.items():
                 report.count("gen." + k, v)
-            _exercise(report, lab, drv, n_valsets, seed, quick)
+            _exercise(report, lab, drv, 3 if getattr(lab, "directed", False) else n_valsets, seed, quick)
         drv.close()
+
+
+def _streams(report, sc, lean, seed, quick):
+    """Model <-> runtime correspondence of the buffered streams at small capacities."""
+    sd = streamcorr.Drivers(sc)
+    rng = random.Random(seed * 7919 + 1)
+
+    def bad(kind, lang, detail):
+        report.violation(f"stream:{kind}:{lang}", dict(detail, theorem_or_correspondence=f"COS/CIS model vs {lang} runtime ({kind})"), "")
+    caps = [10, 11, 16, 64]
+    streamcorr.writer_corr(report, sd, lean, rng, caps, 60 if quick else 1500, 8, bad)
+    streamcorr.reader_corr(report, sd, lean, rng, caps, 40 if quick else 1000, 8, bad, truncate=False)
+    sd.close()
 
 
 def _files(lab):
@@ -71,7 +95,7 @@ def _exercise(report, lab, drv, n_valsets, seed, quick):
             if big:
                 vals = g.gen_step_vals(pj, stream_len=0)
                 # one long stream crossing the 64 KiB staging buffers several times
-                si = [i for i, s in enumerate(pj) if s["stream"]][0]
+                si = g.rng.choice([i for i, s in enumerate(pj) if s["stream"]])
                 items, total = [], 0
                 while total < 150000 and len(items) < 40000:
                     v = g.gen_value(pj[si]["ty"], 3)
@@ -97,7 +121,12 @@ def _exercise(report, lab, drv, n_valsets, seed, quick):
             _judge(report, lab, drv, pj, pname, vals, "cpp", rc, err, outc, ctx, ref)
             # Python (batched)
             outp = lab.tmp(".py.bin")
-            pyjobs.append({"proto": pname, "infmt": "b", "outfmt": "b", "in": inp, "out": outp})
+            job = {"proto": pname, "infmt": "b", "outfmt": "b", "in": inp, "out": outp}
+            if k % 2 == 1 or big:
+                # read everything first, hold the values, then write (lists instead of lazy iterables)
+                job.update(mode="hold", steps=[{"name": vlib.to_snake(s["name"]), "stream": s["stream"]} for s in pj])
+                ctx = dict(ctx, py_mode="hold")
+            pyjobs.append(job)
             pending.append((pj, pname, vals, outp, ctx, ref))
     results = lab.run_py(pyjobs)
     for (pj, pname, vals, outp, ctx, ref), res in zip(pending, results):
